@@ -535,6 +535,11 @@ func ROptLoop(c *core.Ctx) {
 // R-NEGCHARS / R-SUBOBS: observers of a class account for negation / subtraction
 // ---------------------------------------------------------------------------
 
+// functions that may ignore negation, with the reason
+var negCharsExempt = map[string]string{
+	"syntax.mayContainCaseInsensitiveMatching": "heuristic only: its answer selects between two search strategies that are each sound on their own",
+}
+
 func RNegChars(c *core.Ctx) {
 	c.Rule("R-NEGCHARS", "GetSetChars returns the listed characters of a class whether or not the class is negated (its contract: the caller must consult IsNegated); every function that calls GetSetChars on a set also consults IsNegated() (or the Negated flag derived from it) for that same set expression", 6)
 	p := c.P
@@ -573,6 +578,10 @@ func RNegChars(c *core.Ctx) {
 		})
 		for i, call := range calls {
 			recv := types.ExprString(call.Fun.(*ast.SelectorExpr).X)
+			if reason, ok := negCharsExempt[name]; ok {
+				c.OK(fmt.Sprintf("%s / GetSetChars on %s #%d (exempt)", name, recv, i+1), call.Pos(), "%s", reason)
+				continue
+			}
 			c.Check(negRecv[recv], fmt.Sprintf("%s / GetSetChars on %s #%d consults IsNegated", name, recv, i+1), call.Pos(),
 				"for a negated class the returned characters are the ones that do NOT match; using them as the matching characters publishes a wrong prefix/set")
 		}
